@@ -145,6 +145,8 @@ pub struct RunCfg {
     /// ... except for this one (hazard pass)
     pub enter: Option<String>,
     pub thorough: bool,
+    /// index of the run in its batch (enumerating generators use it; 0 in replays)
+    pub run: u64,
 }
 impl RunCfg {
     pub fn avoid(&self, hazard: &str) -> bool {
